@@ -1224,7 +1224,7 @@ impl ApiEndpointVersions {
         earliest: semver::Version,
         until: semver::Version,
     ) -> Result<ApiEndpointVersions, &'static str> {
-        if until < earliest {
+        if until.cmp_precedence(&earliest) == std::cmp::Ordering::Less {
             return Err(
                 "versions in a from-until version range must be provided \
                  in order",
@@ -1252,18 +1252,26 @@ impl ApiEndpointVersions {
             return true;
         };
 
+        // Versions are compared by semver precedence, which ignores build
+        // metadata (unlike `semver::Version`'s `Ord` impl).
+        use std::cmp::Ordering;
+        let cmp = |bound: &semver::Version| version.cmp_precedence(bound);
         match self {
             ApiEndpointVersions::All => true,
-            ApiEndpointVersions::From(earliest) => version >= earliest,
+            ApiEndpointVersions::From(earliest) => {
+                cmp(earliest) != Ordering::Less
+            }
             ApiEndpointVersions::FromUntil(OrderedVersionPair {
                 earliest,
                 until,
             }) => {
-                version >= earliest
-                    && (version < until
-                        || (version == until && earliest == until))
+                cmp(earliest) != Ordering::Less
+                    && (cmp(until) == Ordering::Less
+                        || (cmp(until) == Ordering::Equal
+                            && earliest.cmp_precedence(until)
+                                == Ordering::Equal))
             }
-            ApiEndpointVersions::Until(until) => version < until,
+            ApiEndpointVersions::Until(until) => cmp(until) == Ordering::Less,
         }
     }
 
